@@ -373,6 +373,8 @@ def xform_stmts(sh, t, var, lang):
 # ------------------------------------------------------------------ shapes
 
 CURATED = [
+    ["float32", "float32"], ["float32", "int32"], ["float32", "int16"], ["float32", "int8", "int8"],
+    ["int32", "int16", "int32"], ["int32", "int16", "int32", "float32"], ["int16", "int8", "int32", "int32"], ["float64", "float64", "float32"],
     ["float32", "float32", "float32"], ["float64", "float64"], ["float64", "float64", "float64"],
     ["int32", "float32"], ["float32", "int32", "float32", "int32"], ["int64", "float64"], ["float64", "int64"],
     [("a", "float32", 2), "float64"], ["int8"], [("a", "int8", 3)], [("a", "int64", 2), "int8"], [("a", "float32", 4)],
@@ -647,7 +649,7 @@ def probe_program(name):
     sh = Shapes()
     i64, f64 = P("int64"), P("float64")
     units = []
-    if name == "regsplit":
+    if name in ("regsplit", "abi"):
         p2 = S(sh.add([i64, i64]))
         q = S(sh.add([i64, f64]))
         d = S(sh.add([f64, f64]))
@@ -656,7 +658,9 @@ def probe_program(name):
         units.append(_unit("call", "-", [f64] * 7 + [d, f64], d, ("xf", 7)))
         units.append(_unit("cb", "named", [i64] * 5 + [p2, i64], p2, ("xf", 5)))
         units.append(_unit("cb", "lit", [i64] * 6 + [q], q, ("xf", 6)))
-    elif name == "nestedpad":
+        for u in units:
+            u.probe = "regsplit"
+    if name in ("nestedpad", "abi"):
         inner = S(sh.add([A(P("uint8"), 3), P("uint16"), P("float32")]))
         outer = S(sh.add([P("int8"), P("uint8"), P("int8"), inner]))
         s66 = S(sh.add([P("int32"), P("uint8"), P("uint8")]))
@@ -666,12 +670,19 @@ def probe_program(name):
         units.append(_unit("call", "-", [s68], s68, ("xf", 0)))
         units.append(_unit("cb", "named", [outer], outer, ("xf", 0)))
         units.append(_unit("cb", "lit", [P("int32"), s68], s68, ("xf", 1)))
-    elif name == "capture":
+        for u in units:
+            if not hasattr(u, "probe"):
+                u.probe = "nestedpad"
+    if name == "capture":
         p = S(sh.add([i64, P("int32")]))
         units.append(_unit("cb", "capt", [P("int8"), p, P("float32")], p, ("xf", 1)))
-    else:
+        units[0].probe = "capture"
+    if not units:
         raise ValueError(name)
-    return finish_units(r, sh, units, "c09probe" + name)
+    prog = finish_units(r, sh, units, "c09probe" + name)
+    for u in units:
+        prog["meta"][u.id]["probe"] = u.probe
+    return prog
 
 
 def _params(sh, u, lang, names=True):
